@@ -269,6 +269,7 @@ fn one(report: &mut Report, a: &State, b: &State, cfg: Cfg, backend: BackendKind
         report.nontrivial += 1;
     }
     let case = || case_json(&a.offered, &b.offered, cfg, backend);
+    let _watch = crate::util::watch::enter("reconciliation session pair", case());
     match catch(|| run_case(a, b, cfg, backend)) {
         Err(p) => report.violation(
             "no_panic",
